@@ -133,6 +133,10 @@ def spec_call(ex, ev: Eval, node: ast.Call, fname: str):
                         sub_st.vars[p + k2[len(real):]] = v2
         sub = Eval(ex, sub_st, True, bound, ev.old, ev.result)
         return V(BOOL, z3.And(*[sub.boolean(ex.parse_clause(c)) for c in m.clauses]))
+    if fname in ex.reg.funs and ex.reg.funs[fname]["pure"]:
+        fd = ex.reg.funs[fname]
+        ft = TFun([ex.ptype(x) for x in fd["args"]], ex.ptype(fd["ret"]), fname, True)
+        return apply_callback(ex, ev, ft, node)
     if fname in ex.reg.recfns:
         rf = ex.reg.recfns[fname]
         ats = [parse_type(t, ex.generics) for _, t in rf["params"]]
@@ -165,12 +169,13 @@ def do_call(ex, ev: Eval, node: ast.Call) -> V:
             r = spec_call(ex, ev, node, fname)
             if r is not None:
                 return r
-        # callbacks modelled as uninterpreted pure functions
+        # callbacks: pure ones are uninterpreted functions (A4), the others return an arbitrary value
         if fname in ev.st.vars and isinstance(ev.st.vars[fname].t, TFun):
-            ft = ev.st.vars[fname].t
-            uf = ufun(ft.fname, [sort_of(t) for t in ft.args], sort_of(ft.ret))
-            args = [coerce_to(ev.expr(x), t).z for x, t in zip(node.args, ft.args)]
-            return V(ft.ret, uf(*args))
+            return apply_callback(ex, ev, ev.st.vars[fname].t, node)
+        if fname in ev.st.vars and isinstance(ev.st.vars[fname].t, TObj):
+            sp = ex.reg.find_method(ev.st.vars[fname].t.cls, "__call__")
+            if sp is not None:
+                return call_by_contract(ex, ev, node, sp, recv=f)
         r = builtin_call(ex, ev, node, fname)
         if r is not None:
             USED_BUILTINS.add(fname)
@@ -180,12 +185,17 @@ def do_call(ex, ev: Eval, node: ast.Call) -> V:
             return call_by_contract(ex, ev, node, sp, recv=None)
         recs = getattr(ex.reg, "records", {})
         if fname in recs:
-            return make_record(ex, ev, node, recs[fname])
+            rt = ex.ret_t if isinstance(ex.ret_t, TRec) and ex.ret_t.rname == fname else ex.ptype(fname)
+            return make_record(ex, ev, node, rt)
         if fname in ex.reg.classes:
             raise Unsupported("constructor call must be the right-hand side of a simple assignment")
         raise Unsupported(f"call to {fname} (no contract, not in the builtin table)")
     if isinstance(f, ast.Attribute):
         meth = f.attr
+        if isinstance(f.value, ast.Name):
+            fv = ev.st.vars.get(f"{f.value.id}.{meth}")
+            if fv is not None and isinstance(fv.t, TFun):
+                return apply_callback(ex, ev, fv.t, node)
         sp = ex.method_spec(f.value, meth, ev.st)
         if sp is not None:
             return call_by_contract(ex, ev, node, sp, recv=f.value)
@@ -194,7 +204,34 @@ def do_call(ex, ev: Eval, node: ast.Call) -> V:
             USED_BUILTINS.add("." + meth)
             return r
         raise Unsupported(f"method call {ast.unparse(node)[:60]}")
+    fv = ev.expr(f)
+    if isinstance(fv.t, TU) and fv.t.uname.startswith("cb_") and fv.t.uname[3:] in ex.reg.funs:
+        fd = ex.reg.funs[fv.t.uname[3:]]
+        ft = TFun([ex.ptype(x) for x in fd["args"]], ex.ptype(fd["ret"]), fv.t.uname[3:], fd["pure"])
+        if ft.pure:
+            raise Unsupported("pure callback tokens")
+        return apply_callback(ex, ev, ft, node)
     raise Unsupported(f"call {ast.unparse(node)[:60]}")
+
+
+def apply_callback(ex, ev, ft: TFun, node):
+    args = [coerce_to(ev.expr(x), t).z for x, t in zip(node.args, ft.args)]
+    if ft.pure:
+        uf = ufun(ft.fname, [sort_of(t) for t in ft.args], sort_of(ft.ret))
+        return V(ft.ret, uf(*args))
+    return ex.new_sym(ft.ret, f"cb_{ft.fname}", ev.st)
+
+
+def construct(ex, ev, node, target_name):
+    """`x = Class(args)`: the object's fields appear under x.<field> as established by __init__'s contract"""
+    cls = node.func.id
+    sp = ex.reg.find_method(cls, "__init__")
+    if sp is None:
+        raise Unsupported(f"no contract for {cls}.__init__")
+    ev.st.vars[target_name] = V(TObj(cls), None)
+    recv = ast.Name(id=target_name, ctx=ast.Load())
+    ast.copy_location(recv, node)
+    call_by_contract(ex, ev, node, sp, recv=recv, is_init=True)
 
 
 def make_record(ex, ev, node, rt: TRec):
@@ -209,7 +246,7 @@ def make_record(ex, ev, node, rt: TRec):
         if fn_ in vals:
             items.append(coerce_to(vals[fn_], ft).z)
         elif fn_ in defaults:
-            items.append(ex.spec_value(defaults[fn_], ev.st).z if isinstance(defaults[fn_], str) else defaults[fn_])
+            items.append(coerce_to(ex.spec_value(defaults[fn_], ev.st), ft).z)
         else:
             items.append(fresh(ft, "dflt").z)
     return mk_tuple(rt, items)
@@ -217,8 +254,20 @@ def make_record(ex, ev, node, rt: TRec):
 
 def builtin_call(ex, ev: Eval, node, fname):
     a = node.args
+    if fname == "inf" and not a:
+        from .expr import INF
+        return V(REAL, INF)
+    if fname == "sum" and len(a) == 1:
+        v = ev.expr(a[0])
+        if isinstance(v.t, TList) and v.t.elem in (INT, REAL):
+            return V(v.t.elem, ufun("lsum_" + v.t.elem.name, [sort_of(v.t)], sort_of(v.t.elem))(v.z))
+        raise Unsupported("sum over " + str(v.t))
     if fname == "len":
         v = ev.expr(a[0])
+        if isinstance(v.t, TU) and v.t.uname == "opaque":
+            r = ex.new_sym(INT, "opq_len", ev.st)
+            ev.st.pc.append(r.z >= 0)
+            return r
         if isinstance(v.t, TList):
             return V(INT, list_len(v))
         if isinstance(v.t, TDict):
@@ -251,7 +300,12 @@ def builtin_call(ex, ev: Eval, node, fname):
             return V(INT, z3.If(v.z >= 0, fl, z3.If(z3.ToReal(fl) == v.z, fl, fl + 1)))
     if fname == "float" and len(a) == 1:
         if isinstance(a[0], ast.Constant) and isinstance(a[0].value, str):
-            raise Unsupported("float('inf')")
+            from .expr import INF
+            if a[0].value in ("inf", "+inf"):
+                return V(REAL, INF)
+            if a[0].value == "-inf":
+                return V(REAL, -INF)
+            raise Unsupported("float(str)")
         return coerce_to(ev.expr(a[0]), REAL)
     if fname == "bool" and len(a) == 1:
         return V(BOOL, ev.boolean(a[0]))
@@ -273,11 +327,28 @@ def builtin_call(ex, ev: Eval, node, fname):
             ev.st.pc.append(z3.ForAll([j], z3.Select(arr.z, j) == j, patterns=[z3.Select(arr.z, j)]))
             return mk_list(TList(INT), z3.If(n.z >= 0, n.z, 0), arr.z)
         v = ev.expr(x)
+        if isinstance(v.t, TOpt) and isinstance(v.t.t, TList):
+            ev.ob("none-deref", z3.Not(opt_is_none(v)), node)
+            v = opt_val(v)
         if isinstance(v.t, TList):
             return v  # copy: same value
         raise Unsupported(f"list({v.t})")
     if fname in ("debug", "print"):
         return V(NONE, z3.BoolVal(True))
+    if fname == "callable" and len(a) == 1:
+        return ex.new_sym(BOOL, "callable", ev.st)
+    if fname in ("exp", "log", "sqrt") and len(a) == 1:
+        x = coerce_to(ev.expr(a[0]), REAL)
+        f = ufun("math_" + fname, [z3.RealSort()], z3.RealSort())
+        r = V(REAL, f(x.z))
+        if fname == "exp":
+            ev.st.pc.append(r.z > 0)
+        if fname == "sqrt":
+            ev.ob("sqrt-domain", x.z >= 0, node)
+            ev.st.pc.append(z3.And(r.z >= 0, r.z * r.z == x.z))
+        if fname == "log":
+            ev.ob("log-domain", x.z > 0, node)
+        return r
     return None
 
 
@@ -291,6 +362,47 @@ def method_call(ex, ev: Eval, node, recv_node, meth):
     except Unsupported:
         return None
     a = node.args
+    if isinstance(recv.t, TU) and recv.t.uname == "rng":
+        # seeded Random instance: results are arbitrary values of the documented range (all seeds at once)
+        if meth == "random" and not a:
+            r = ex.new_sym(REAL, "rnd", ev.st)
+            ev.st.pc.append(z3.And(r.z >= 0, r.z < 1))
+            return r
+        if meth == "randint" and len(a) == 2:
+            lo, hi = ev.expr(a[0]), ev.expr(a[1])
+            r = ex.new_sym(INT, "rndi", ev.st)
+            ev.st.pc.append(z3.And(r.z >= lo.z, r.z <= hi.z))
+            return r
+        if meth == "randrange" and len(a) == 1:
+            hi = ev.expr(a[0])
+            r = ex.new_sym(INT, "rndi", ev.st)
+            ev.st.pc.append(z3.And(r.z >= 0, r.z < hi.z))
+            return r
+        if meth == "uniform" and len(a) == 2:
+            lo, hi = coerce_to(ev.expr(a[0]), REAL), coerce_to(ev.expr(a[1]), REAL)
+            r = ex.new_sym(REAL, "rndu", ev.st)
+            ev.st.pc.append(z3.Or(z3.And(r.z >= lo.z, r.z <= hi.z), z3.And(r.z >= hi.z, r.z <= lo.z)))
+            return r
+        if meth == "choice" and len(a) == 1:
+            lst = ev.expr(a[0])
+            if isinstance(lst.t, TList):
+                ev.ob("choice-nonempty", list_len(lst) > 0, node)
+                i = ex.new_sym(INT, "rndc", ev.st)
+                ev.st.pc.append(z3.And(i.z >= 0, i.z < list_len(lst)))
+                return V(lst.t.elem, z3.Select(list_arr(lst), i.z))
+        if meth == "shuffle" and len(a) == 1 and isinstance(a[0], (ast.Name, ast.Attribute)):
+            lst = ev.expr(a[0])
+            if isinstance(lst.t, TList):
+                # over-approximation: same length, arbitrary contents (a permutation is one such list)
+                new = ex.new_sym(lst.t, "shuffled", ev.st)
+                ev.st.pc.append(list_len(new) == list_len(lst))
+                ex.assign(ev.st, a[0], new, ev)
+                return V(NONE, z3.BoolVal(True))
+        raise Unsupported(f"Random.{meth}")
+    if isinstance(recv.t, TU) and recv.t.uname == "opaque":
+        for x in a:
+            ev.expr(x)
+        return ex.new_sym(recv.t, "opq_m", ev.st)
     if isinstance(recv.t, TList):
         ln, arr = list_len(recv), list_arr(recv)
         if meth == "append" and len(a) == 1:
@@ -373,7 +485,7 @@ def do_listcomp(ex, ev, node):
 
 
 # ---------------------------------------------------------------------- calls by contract
-def call_by_contract(ex, ev: Eval, node: ast.Call, sp, recv):
+def call_by_contract(ex, ev: Eval, node: ast.Call, sp, recv, is_init=False):
     """assert requires, havoc modifies, assume ensures; the callee body is never inspected"""
     if ev.guard and sp.modifies:
         raise Unsupported("effectful call under short-circuit")
@@ -417,6 +529,12 @@ def call_by_contract(ex, ev: Eval, node: ast.Call, sp, recv):
         pre.vars["self"] = V(TObj(callee_cls), None)
         for f_, ft in cex.fields_of(callee_cls).items():
             key = f"{rname}.{f_}"
+            if is_init:
+                if isinstance(ft, TFun):
+                    pre.vars[f"self.{f_}"] = V(ft, None)
+                else:
+                    pre.vars[f"self.{f_}"] = ex.new_sym(ft, f"{rname}_{f_}_pre", st)
+                continue
             if key not in st.vars:
                 raise Unsupported(f"{key} not initialised before call")
             pre.vars[f"self.{f_}"] = st.vars[key]
@@ -442,12 +560,15 @@ def call_by_contract(ex, ev: Eval, node: ast.Call, sp, recv):
         v0 = pre.vars.get(m)
         if v0 is None:
             raise Unsupported(f"modifies {m}: unknown in callee frame")
-        post.vars[m] = ex.new_sym(v0.t, f"{sp.qualname.split('.')[-1]}_{m}", st)
+        post.vars[m] = v0 if isinstance(v0.t, TFun) else ex.new_sym(v0.t, f"{sp.qualname.split('.')[-1]}_{m}", st)
     rt = cex.ptype(sp.ret) if sp.ret else cex.ann_src(ast.unparse(callee_fn.returns) if callee_fn.returns is not None else "None")
     res = V(NONE, z3.BoolVal(True)) if rt == NONE else ex.new_sym(rt, f"ret_{sp.qualname.split('.')[-1]}", st)
     for e in sp.ensures:
         st.pc.append(cex.clause(e, post, old=pre, result=res))
     # write back
+    if is_init:
+        for f_, ft in cex.fields_of(callee_cls).items():
+            st.vars[f"{rname}.{f_}"] = post.vars[f"self.{f_}"]
     for m in sp.modifies:
         if m.startswith("self."):
             st.vars[f"{rname}.{m[5:]}"] = post.vars[m]
